@@ -124,7 +124,7 @@ impl Target {
 //@end
 //@fn src/domain.rs Target::dependencies ret=r
 //@contract
-    ensures /*[C09.closed]*/ *r == self.meta().dependencies,
+    ensures /*[C09.closed,C20.nesting]*/ *r == self.meta().dependencies,
 //@end
 //@fn src/domain.rs Target::extend_dependencies
 //@contract
@@ -549,7 +549,7 @@ impl Path {
 //@closure 1 skeleton=`paths.iter().map(<CLOSURE>).collect()` becomes=`join_paths(project_dir, &paths)`
 //@contract
     ensures
-        /*[C19.ref-default,C09.ref-parse]*/ r matches Ok(x) ==> dfi_step(acc.1@, resource, target_id.project_name) == Some(x.1@),
+        /*[C19.ref-default,C09.ref-parse,C20.nesting]*/ r matches Ok(x) ==> dfi_step(acc.1@, resource, target_id.project_name) == Some(x.1@),
         /*[C09.ref-parse]*/ r is Err ==> dfi_step(acc.1@, resource, target_id.project_name) is None,
         /*[C13.cmd-dir-bound]*/ r is Ok && resource is CmdStdout ==> r->Ok_0.0.files@ == acc.0.files@ && r->Ok_0.0.cmds@.len() == acc.0.cmds@.len() + 1
             && r->Ok_0.0.cmds@.last().dir == project_dir.buf() && r->Ok_0.0.cmds@.last().cmd == resource->cmd_stdout,
@@ -602,8 +602,8 @@ impl Path {
 //@contract
     ensures
         /*[C09.keyed]*/ r matches Ok((t, dfi)) ==> t.meta().id == *target_id && t.meta().project_dir == project_dir,
-        /*[C19.ref-default,C09.ref-parse]*/ r matches Ok((t, dfi)) ==> t.meta().dependencies@ == yaml_deps(yaml_target, target_id.project_name),
-        /*[C19.ref-default,C09.ref-parse]*/ r matches Ok((t, dfi)) ==> dfi@ == yaml_output_refs(yaml_target, target_id.project_name),
+        /*[C19.ref-default,C09.ref-parse,C20.nesting]*/ r matches Ok((t, dfi)) ==> t.meta().dependencies@ == yaml_deps(yaml_target, target_id.project_name),
+        /*[C19.ref-default,C09.ref-parse,C20.nesting]*/ r matches Ok((t, dfi)) ==> dfi@ == yaml_output_refs(yaml_target, target_id.project_name),
         r matches Ok((t, dfi)) ==> (t is Aggregate ==> dfi@.len() == 0),
 //@end
 
@@ -783,7 +783,7 @@ pub proof fn lemma_shrinks_trans(a: &Config, b: &Config, c: &Config)
     ensures
         cfg_shrinks(old(config), final(config)),
         extends(old(domain_targets)@, final(domain_targets)@),
-        /*[C09.closed]*/ r is Ok ==> closed(final(domain_targets)@) && final(domain_targets)@.contains_key(*target_id),
+        /*[C09.closed,C20.nesting]*/ r is Ok ==> closed(final(domain_targets)@) && final(domain_targets)@.contains_key(*target_id),
         /*[C09.keyed]*/ r is Ok ==> keyed(final(domain_targets)@),
         /*[C09.unknown]*/ !old(domain_targets)@.contains_key(*target_id) && !cfg_has(old(config), *target_id) ==> r is Err,
         /*[C09.acyclic]*/ !old(domain_targets)@.contains_key(*target_id) && parent_targets@.contains(target_id) ==> r is Err,
@@ -942,7 +942,7 @@ impl Config {
 //@replace `add_target(&mut domain_targets, &mut self, target_id, &[])?` => `add_target(&mut domain_targets, &mut this, target_id, &[])?` rule=R6 pre why=`see above`
 //@contract
     ensures
-        /*[C09.closed]*/ r matches Ok(m) ==> closed(m@) && forall|i: int| 0 <= i < root_target_ids@.len() ==> m@.contains_key(#[trigger] root_target_ids@[i]),
+        /*[C09.closed,C20.nesting]*/ r matches Ok(m) ==> closed(m@) && forall|i: int| 0 <= i < root_target_ids@.len() ==> m@.contains_key(#[trigger] root_target_ids@[i]),
         /*[C09.keyed]*/ r matches Ok(m) ==> keyed(m@),
         /*[C09.only-reachable,C08.only-closure]*/ r matches Ok(m) ==> forall|k: TargetId| #![trigger m@.contains_key(k)] m@.contains_key(k) ==> exists|j: int| 0 <= j < root_target_ids@.len() && reach(m@, #[trigger] root_target_ids@[j], k),
 //@pre
